@@ -353,7 +353,9 @@ Proof.
   destruct (rp s g l) eqn:Er; try discriminate.
   - enabled (AStart g l).
   - right. exists g, l. auto.
-  - enabled (ASetRes g l). destruct (set_result c (sh s) l sct); reflexivity.
+  - destruct (set_result c (sh s) l sct) eqn:Es.
+    + left. exists (ASetRes g l). eexists. split; [reflexivity|]. unfold step. rewrite Hp, Hv, Er, Es. reflexivity.
+    + left. exists (ASetRes g l). eexists. split; [reflexivity|]. unfold step. rewrite Hp, Hv, Er, Es. reflexivity.
 Qed.
 
 Lemma gor_progress s g l : inv1 c s -> valid_gor c g l = true -> is_rdone (rp s g l) = false -> can_step s \/ waiting s.
